@@ -914,9 +914,26 @@ var hostileBases = []string{
 
 func genHostile(t *rapid.T) C12HostileCase {
 	c := C12HostileCase{Listener: rapid.SampledFrom([]string{"plain", "plain", "mitm", "mitm-raw"}).Draw(t, "listener")}
-	switch rapid.IntRange(0, 5).Draw(t, "kind") {
+	switch rapid.IntRange(0, 6).Draw(t, "kind") {
 	case 0:
 		c.Data = rapid.SliceOfN(rapid.Byte(), 0, 200).Draw(t, "garbage")
+	case 6:
+		// a target whose host name is as long as the limits anybody might apply to it (a label, a name, a line) and made
+		// of octets of every width: ASCII, 2-, 3- and 4-octet UTF-8 sequences, octets that are no UTF-8 at all
+		l := rapid.SampledFrom([]int{63, 64, 250, 251, 252, 253, 254, 255, 256, 257, 1023, 1024, 4095, 4096}).Draw(t, "hostlen")
+		l += rapid.IntRange(-2, 2).Draw(t, "hostlenoff")
+		filler := rapid.SampledFrom([]string{"a", "\u00e9", "\u20ac", "\U0001F600", "\xff", "\xfe\xff", "a\u20ac", "ab\U0001F600"}).Draw(t, "hostfill")
+		pre := strings.Repeat("a", rapid.IntRange(0, 5).Draw(t, "hostpre"))
+		h := pre
+		for len(h) < l {
+			h += filler
+		}
+		h += ".test"
+		if rapid.Bool().Draw(t, "hostconnect") {
+			c.Data = []byte("CONNECT " + h + ":443 HTTP/1.1\r\nHost: " + h + ":443\r\n\r\n")
+		} else {
+			c.Data = []byte("GET http://" + h + "/ HTTP/1.1\r\nHost: " + h + "\r\n\r\n")
+		}
 	default:
 		d := []byte(rapid.SampledFrom(hostileBases).Draw(t, "base"))
 		n := rapid.IntRange(0, 4).Draw(t, "nmut")
